@@ -1188,8 +1188,26 @@ package flags
 
 // (a custom Unmarshaler is trusted not to answer with a typed-nil *Error nor
 // with the parser's own "unknown flag" error)
-//@ assumed func convertUnmarshal(val string, retval reflect.Value) (ok bool, err error)
+// Custom unmarshalling: when the value's own UnmarshalFlag is asked, its
+// verdict - error included - is what comes back (C11: accepted exactly or
+// rejected).  "pure": the search for an Unmarshaler over value / address /
+// interface content depends only on the value's type and addressability;
+// callers see no effect of it.
+//@ assumed func Unmarshaler.UnmarshalFlag(u Unmarshaler, value string) (err error)
+//@   traced
+//@   ensures is(err, *Error) ==> as(err, *Error) != nil
+//@   ensures !isTyped(err, ErrUnknownFlag)
+//@ assumed func reflect.Type.NumMethod(t reflect.Type) (n int)
 //@   pure
+//@ assumed func reflect.Value.CanInterface(v reflect.Value) (r bool)
+//@   pure
+//@ func convertUnmarshal(val string, retval reflect.Value) (ok bool, err error)
+//@   props C11 C01 C04
+//@   pure
+//@   let u0 := ncalls(Unmarshaler.UnmarshalFlag)
+//@   ensures[C11,C01] ncalls(Unmarshaler.UnmarshalFlag) == u0 + 1 ==> ok && err == callres(Unmarshaler.UnmarshalFlag, u0, 0) && callarg(Unmarshaler.UnmarshalFlag, u0, 1) == val
+//@   ensures[C11,C01] retval.Type().NumMethod() > 0 && retval.CanInterface() && is(retval.Interface(), Unmarshaler) ==> ncalls(Unmarshaler.UnmarshalFlag) == u0 + 1
+//@   ensures ncalls(Unmarshaler.UnmarshalFlag) <= u0 + 1
 //@   ensures is(err, *Error) ==> as(err, *Error) != nil
 //@   ensures !isTyped(err, ErrUnknownFlag)
 
